@@ -3,6 +3,30 @@ import json, os
 HERE = os.path.dirname(os.path.abspath(__file__))
 
 CHECKS = {
+ "C01": dict(
+   text="Hypothesis search (thousands of spectra/grids per run) comparing the closed-form zero-point, thermal and total contributions with a numerically differentiated reference free energy (80-bit finite differences, own CODATA constants), separately per clause; mpmath 40-digit cross-check of the reference on a sample.",
+   note="Trusts the reference free-energy model (vcij/refphys.py) and the duck-typed calculator surface (vcij/duck.py); tolerance 1e-7 of the summed per-mode magnitudes (+3e-9 per unit of hw/kT for CODATA revisions).",
+   technique="Hypothesis property-based differential test against a numerically differentiated reference model", design="4/C01"),
+ "C02": dict(
+   text="Hypothesis search comparing adiabatic-isothermal gaps with T V (dP/dT)^2/(9 e_i e_j C_V) from the mixed numerical derivative of the reference free energy, sign and T=0 clauses, and bitwise equality of adiabatic and isothermal shear values through the task list.",
+   note="Trusts vcij/refphys.py; heat capacity is an arbitrary positive field handed in through the duck calculator.",
+   technique="Hypothesis property-based differential test (reference mixed derivative) + invariant on the task list", design="4/C02"),
+ "C03": dict(
+   text="Complete enumeration of the linear map on a basis (15 shear keys x 21 basis tensors: decides all tensors by linearity) plus Hypothesis-drawn random tensors and strain triples; frame, requested-key and rotated-strain validity predicates.",
+   note="Any orthonormal eigenbasis is accepted as the rotated frame; reference rotation by einsum in vcij/reftensor.py.",
+   technique="exhaustive basis enumeration + Hypothesis against reference tensor algebra (validity predicates)", design="4/C03"),
+ "C04": dict(
+   text="Hypothesis search over subsets/orders of the 21 keys, strain-field classes and axis permutations with metamorphic oracles (alone vs in company, reversed order, relabelled axes, isotropic limit), dependency-order check, node budget, and a rule-based state machine over resolve/calculate histories.",
+   note="Strain fractions lie on a rational grid so that tasks are either identical or well separated (the scheduler merges parameters equal to 1e-5 by design).",
+   technique="Hypothesis metamorphic tests + rule-based state machine (histories)", design="4/C04"),
+ "C08": dict(
+   text="Subspace equality Sol = W decided completely for all nine systems (every basis vector of the Laue-invariant subspace accepted unchanged, a minimal sufficient set accepted, complement vectors refused, own parse of the relation files), plus Hypothesis search over sufficient subsets around the matroid boundary and row counts.",
+   note="Invariant subspaces computed from rotation generators in the standard setting (vcij/reflaue.py); nothing reads the packaged relations except the explicit white-box cross-check.",
+   technique="complete basis enumeration + Hypothesis against an independently computed invariant subspace", design="4/C08"),
+ "C09": dict(
+   text="Hypothesis search over systems x subsets near the sufficiency boundary x consistent/perturbed values x the four options x presentations (order, case, dtype, extra columns) x environments (cwd contents, relation-file paths); oracle: refuse <=> (insufficient and not ignore_rank) or (inconsistent and not ignore_residuals), acceptance clauses, outcome identical across presentations; cij fill through click's runner.",
+   note="Sufficiency by an independent rank computation; perturbations are placed a factor >=100 away from the residual threshold; 'never distorts' clauses asserted for consistent tables only.",
+   technique="Hypothesis property-based test with reference rank/consistency oracle + metamorphic presentation/environment relations", design="4/C09"),
  "C10": dict(
    text="Complete enumeration of the finite domain (81 tuples, 81x81 equality pairs, 36 Voigt pairs, all str/int spellings, strain indices, out-of-range shell) against an own canonicaliser, plus Hypothesis over arbitrary digit strings; exhaustive for the stated domain.",
    note="Trusts only the reference canonicaliser written from the property text; 'rejected' = any exception.",
